@@ -45,12 +45,14 @@ class C08(Check):
         "E4": "sign preservation: a numeric coefficient is a reactant iff negative, with its absolute value; a computed coefficient is "
               "exported on the side that keeps its value (product)",
         "E5": "operator tables: each entry maps to the MathML node of the same meaning and is listed under its real arity",
+        "E8": "a conditional expression is exported as MathML piecewise with children (value-if-true, condition, value-otherwise) - the order "
+              "<piece> value condition </piece> <otherwise> prescribed by MathML / libsbml",
         "E7": "fresh tree per export: the function AST that is renamed in place (NodeTransformer.visit) for one component is parsed "
               "anew for that call; a memoised (functools.cache / lru_cache / module-level dict) parse would hand the already renamed tree to "
               "the next component that uses the same function with other arguments",
         "E6": "API existence: every method called on a libsbml object exists on the class its factory returns",
     }
-    floors = {"E1": 8, "E2": 3, "E3": 10, "E4": 2, "E5": 20, "E6": 25, "E7": 2}
+    floors = {"E1": 8, "E2": 3, "E3": 10, "E4": 2, "E5": 20, "E6": 25, "E7": 2, "E8": 1}
     decided = [
         "an expression construct the exporter cannot represent raises instead of producing a different / unreadable formula",
         "coefficient signs survive; ids are produced by one converter; libsbml is called with methods that exist",
@@ -69,6 +71,17 @@ class C08(Check):
         self.e5(mod)
         self.e6(mod)
         self.e7(mod)
+        fi = mod.func("_convert_ifexp")
+        defs = {norm(a.targets[0]): norm(a.value) for a in walk_no_nested(fi) if isinstance(a, ast.Assign) and isinstance(a.targets[0], ast.Name)}
+        kids = [norm(c.args[0]) for c in walk_no_nested(fi) if isinstance(c, ast.Call) and norm(c.func).endswith(".addChild")]
+        kids.sort(key=lambda k: [c.lineno for c in walk_no_nested(fi) if isinstance(c, ast.Call) and norm(c.func).endswith(".addChild") and norm(c.args[0]) == k][0])
+        roles = [defs.get(k, k) for k in kids]
+        want = ["_convert_node(node.body)", "_convert_node(node.test)", "_convert_node(node.orelse)"]
+        if roles == want:
+            self.holds("E8", MOD, fi.name, "piecewise-child-order", fi, "children added as (value-if-true, condition, otherwise)")
+        else:
+            self.violated("E8", MOD, fi.name, "piecewise-child-order", fi, f"piecewise children are added as {roles}; MathML reads <piece> value condition </piece>, then <otherwise>",
+                          witness="`k if x > 2 else 0.5`: the re-imported model computes (x > 2) if k else 0.5, e.g. -1 instead of -2 at x = 3")
 
     # ------------------------------------------------------------------
     def e1(self, mod) -> None:
@@ -365,6 +378,7 @@ class C08(Check):
             Variant("memoised-parse", MOD, "", "def _sbmlify_fn(fn: Callable, user_args: list[str]) -> libsbml.ASTNode:\n    return _tree_to_sbml(get_fn_ast(fn), args=user_args)",
                     "from functools import cache\n\n@cache\ndef _parse_fn(fn: Callable) -> ast.FunctionDef:\n    tree = get_fn_ast(fn)\n    return tree\n\ndef _sbmlify_fn(fn: Callable, user_args: list[str]) -> libsbml.ASTNode:\n    return _tree_to_sbml(_parse_fn(fn), args=user_args)",
                     expect="E7|", quick=True),
+            Variant("piecewise-condition-first", MOD, "_convert_ifexp", "    sbml_node.addChild(true)\n    sbml_node.addChild(condition)", "    sbml_node.addChild(condition)\n    sbml_node.addChild(true)", expect="E8|", quick=True),
             Variant("first-link-only", MOD, "_convert_compare",
                     "    links = []\n    left = node.left\n    for op, right in zip(node.ops, node.comparators, strict=True):\n        links.append(_convert_relation(op, _convert_node(left), _convert_node(right)))\n        left = right\n    if len(links) == 1:\n        return links[0]",
                     "    return _convert_relation(node.ops[0], _convert_node(node.left), _convert_node(node.comparators[0]))\n    links = []", expect="E1|", quick=True),
